@@ -209,7 +209,15 @@ pub fn safe_approximation(limited: &Sol, full: &Sol) -> Result<(), String> {
                         Ok(())
                     }
                 }
-                None => Ok(()),
+                // the full answer makes no definite claim (Suggested / Unknown guidance): definite guidance from the
+                // interrupted solve would claim MORE than the full answer, unless it is the identity (claims nothing)
+                None => {
+                    if sig.value.is_identity_subst(ChalkIr) {
+                        Ok(())
+                    } else {
+                        Err("interrupted solve claims definite guidance although the full answer has none".into())
+                    }
+                }
             },
         },
         Some(Solution::Ambig(_)) => Ok(()),
